@@ -174,10 +174,7 @@ func runE2E(b Beh, seed int64) ([]J, error) {
 			if err != nil {
 				return nil, err
 			}
-			if cs.verified {
-				o["skipped"] = true
-				break
-			}
+			// (on a verified connection: pair-verify inside the session; a refusal leaves the session as it is)
 			vc := &ref.VerifyClient{ID: ids[fmt.Sprint(s.X)], Rnd: rndFunc(rng)}
 			err = vc.Run(cs.c, tr.AccessoryLTPK())
 			if err == nil {
